@@ -81,7 +81,18 @@ def corr_heap(ck, n, maxsteps):
             ck.violation('heap', 'sim.Heap violates its specification', {'kind': 'heap', 'ops': ops}, err, None)
         out = common.run_driver(['heap new'] + [f'heap {a} {b}' for a, b in ops])[1:]
         bad = next((i for i, (r, m) in enumerate(zip(dumps, out)) if r != m), None)
-        ck.case(key=('heap', seed), nontrivial=len(ops) >= 4, sample=case, tag=['heap', f'steps:{min(len(ops) // 50, 8) * 50}+'])
+        # domain of C08.allocator_invariant / hist_hwm evaluated by the driver on THIS history (histOkB: every release is of the start
+        # of a chunk live at that moment; the real Heap.free does not check it and corrupts its tables otherwise — API misuse, outside)
+        dom = common.run_driver(['heaphist ' + ','.join(('a' if a == 'alloc' else 'f') + str(b) for a, b in ops)])[0]
+        real_max = dumps[-1].split('max=')[-1] if dumps else '0'
+        ck.case(key=('heap', seed), nontrivial=len(ops) >= 4, sample=case,
+                tag=['heap', f'steps:{min(len(ops) // 50, 8) * 50}+', 'heap-hyp:' + ('inside' if dom.startswith('ok=true strict=true') else 'OUTSIDE')])
+        if not dom.startswith('ok=true strict=true'):
+            ck.broken_tie('domain histOkB of the allocator theorems on a generated history (the harness must release live chunk starts only)', dom,
+                          inp={'kind': 'heap', 'ops': ops})
+        elif not err and f'peak={real_max} max={real_max} ' not in dom + ' ':
+            ck.broken_tie('hist_hwm: max_size of the real heap after the history vs running maximum of the model', f'real max={real_max}; model {dom}',
+                          inp={'kind': 'heap', 'ops': ops})
         if bad is not None:
             ck.broken_tie('sim.Heap vs Lean Heap model', f'step {bad} {ops[bad]}: real "{dumps[bad]}" != model "{out[bad]}"',
                           inp={'kind': 'heap', 'ops': ops[:bad + 1]})
@@ -223,7 +234,7 @@ def run(ck):
     corr_map(ck, nm, ck.tier == 'thorough')
     if ck.broken and not ck.violations:
         corr_heap(ck, nh * 4, steps); corr_map(ck, nm * 4, ck.tier == 'thorough')
-    ck.assumptions += ['free() only of live chunk starts, sizes > 0 (Python raises KeyError otherwise)',
+    ck.assumptions += ['allocator domain: sizes > 0 and free() only of the start of a LIVE chunk (histOkB, evaluated by the driver on every generated history: tag heap-hyp). OUTSIDE the domain the real Heap.free does not raise: a second Heap.free(0) silently corrupts the tables (API misuse, witness /tmp/audit/v_heap.py: alloc 4 x3, free 0, free 0); the model returns none there and nothing is claimed. SimOps never leaves the domain: theorem memMap_frees_live',
                        'the map certificate MapIn.check is sound (map_certificate_sound, kernel-checked); that the map of the Lean SimOps model passes it is a theorem for all circuits (simops_map_accepted, hypotheses wfB/orderOKB/forksOKB/readsDrivenB evaluated on every real circuit: tag simops-hyp); that the real SimOps computes the tables of the model is exact correspondence per generated instance, and the certificate is still evaluated on the real tables']
     return ck.finish(RULE)
 
